@@ -60,3 +60,25 @@ Print Assumptions C15_send_fault.
 Theorem C15_base_send_once : forall payload fault, base_send true payload fault = ([payload], fault).
 Proof. reflexivity. Qed.
 Print Assumptions C15_base_send_once.
+
+(* ---- the code is the model (regenerated each run): the real Client.send_request executed on a symbolic clock against a connection whose
+   reception queue holds whatever arrived before the call (tools/symtrans.py, Gen/Fn_SendRequest.v): one empty_rxqueue(), then one send() of
+   the request's bytes, and a frame that arrived before the call is never taken for the answer - for all instants, no hypothesis ---- *)
+From UDS Require Import Gen.Fn_SendRequest Model.Services Proofs.Tie_send_common Proofs.Tie_send_flush.
+
+Theorem C15_code_send_request_flush_P : forall cfg T P2 P2S now a1, timing cfg (Some T) P2 P2S ->
+  fn_send_request_flush_P T P2 P2S now a1 = ret (obs_full (send_request cfg st_init tp_req (-1) now [(a1, Frame [126; 0])])).
+Proof. exact tie_send_request_flush_P. Qed.
+Print Assumptions C15_code_send_request_flush_P.
+Theorem C15_code_send_request_flush_PP : forall cfg T P2 P2S now a1 a2, timing cfg (Some T) P2 P2S ->
+  fn_send_request_flush_PP T P2 P2S now a1 a2 = ret (obs_full (send_request cfg st_init tp_req (-1) now [(a1, Frame [126; 0]); (a2, Frame [126; 0])])).
+Proof. exact tie_send_request_flush_PP. Qed.
+Print Assumptions C15_code_send_request_flush_PP.
+Theorem C15_code_send_request_flush_WP : forall cfg T P2 P2S now a1 a2, timing cfg (Some T) P2 P2S ->
+  fn_send_request_flush_WP T P2 P2S now a1 a2 = ret (obs_full (send_request cfg st_init tp_req (-1) now [(a1, Frame [127; 62; 120]); (a2, Frame [126; 0])])).
+Proof. exact tie_send_request_flush_WP. Qed.
+Print Assumptions C15_code_send_request_flush_WP.
+Theorem C15_code_send_request_flush_NP : forall cfg T P2 P2S now a1 a2, timing cfg (Some T) P2 P2S ->
+  fn_send_request_flush_NP T P2 P2S now a1 a2 = ret (obs_full (send_request cfg st_init tp_req (-1) now [(a1, Frame [127; 62; 34]); (a2, Frame [126; 0])])).
+Proof. exact tie_send_request_flush_NP. Qed.
+Print Assumptions C15_code_send_request_flush_NP.
